@@ -309,6 +309,32 @@ for n_small, n_large in ((3, 5), (200, 256), (200, 257), (200, 300), (256, 300),
                 lambda n_small=n_small, n_large=n_large, order=order: concat_alphabets(n_small, n_large, order))
 
 
+def nucleotide_construction(text, mode):
+    """NucleotideSequence(text, ambiguous=mode): the alphabet follows the option; symbols outside the chosen alphabet
+    raise AlphabetError instead of yielding another value"""
+    unamb = all(c in "ACGT" for c in text.upper())
+    iupac = all(c in "ACGTRYWSMKHBVDN" for c in text.upper())
+    try:
+        s = seq.NucleotideSequence(text, ambiguous=mode)
+    except seq.AlphabetError:
+        ok = (mode is False and not unamb) or (mode is not False and not iupac)
+        return None if ok else f"NucleotideSequence({text!r}, ambiguous={mode}) raised AlphabetError for symbols of its alphabet"
+    if (mode is False and not unamb) or not iupac:
+        return f"NucleotideSequence({text!r}, ambiguous={mode}) accepted symbols outside its alphabet (alphabet of {len(s.get_alphabet())} symbols, code {s.code.tolist()})"
+    want_amb = mode is True or (mode is None and not unamb)
+    if (len(s.get_alphabet()) == 15) != want_amb:
+        return f"NucleotideSequence({text!r}, ambiguous={mode}) uses the alphabet of {len(s.get_alphabet())} symbols"
+    if str(s) != text.upper():
+        return f"str() = {str(s)!r}"
+    return None
+
+
+for text in ("ACGT", "", "acgt", "ACGTNN", "ACR", "acgty", "N", "ACGU", "AC-T", "ACGTX"):
+    for mode in (None, False, True):
+        R.check("sequence objects agree with their strings", "nucleotide construction / alphabet option", {"text": text, "ambiguous": mode},
+                lambda text=text, mode=mode: nucleotide_construction(text, mode))
+
+
 mapper_src, mapper_tgt = seq.NucleotideSequence.alphabet_unamb, seq.NucleotideSequence.alphabet_amb
 
 
